@@ -223,7 +223,11 @@ def run():
             hist = [dict(r, id=f"h{k}") for k, r in enumerate(h for h in history if meta[h["id"]][0] == op and h["src"].startswith("P := Int."))][:30]
             seq = run_cases(hist + [dict(rq, id="again")], nproc=1, label="C10 history confirm")
             if seq["again"]["end"] != end:
-                raise pvlib.Broken(f"flaky observation for {rq['src']!r}")
+                # not these programs alone - what the same worker process had evaluated before the case, then?
+                hc = pvlib.history_confirm(reqs, rq["id"], label="C10 shard-prefix confirm")
+                if not hc or hc["end"] != end:
+                    raise pvlib.Broken(f"flaky observation for {rq['src']!r}")
+                hist = []
             ck.reject(signature(op, a, b) + ":after-history", f"{rq['src']} gives {end} when evaluated after programs that used a descendant overriding `{op}` in the same process "
                       f"(alone it gives {again[rq['id']]['end']}) ({why})",
                       {"src": rq["src"], "observed": end, "alone": again[rq["id"]]["end"], "history": [h["src"] for h in hist][:5], "op": op, "a": a, "b": b, "why": why})
